@@ -615,7 +615,7 @@ HasBlank(labels) == \E q \in DOMAIN labels : \E x \in DOMAIN labels[q] : labels[
 \*   texts only (every rotation of the pool)
 NumeralPool(n) == {Digits(i) : i \in 0..n} \cup {<<1, 0>>, <<9, 6, 0, 6>>, <<0, 0>>, <<0, 1>>}
 TextPool == << <<10>>, <<1, 10>>, <<10, 1>>, <<12, 1>>, <<13, 1>>, <<14, 5>>, <<1, 11, 3>>, <<1, 12, 0>>,   \* a 1a a1 _1 -1 .5 1e3 1_0
-               <<10, 20, 11>>, <<1, 20, 2>>, <<10, 21, 10>>,                                               \* "a e", "1 2", a<tab>a
+               <<10, 20, 11>>, <<10, 11>>, <<1, 20, 2>>, <<10, 21, 10>>,                                   \* "a e", ae, "1 2", a<tab>a
                <<22, 10, 22>>, <<23, 10, 23>>, <<24, 1, 25>> >>                                            \* 'a' "a" [1]
 InjectiveSeqs(n, S) == {s \in [1..n -> S] : \A p, q \in 1..n : p # q => s[p] # s[q]}
 LabelLists(n, full) ==                       \* full = FALSE: of the numerals only the permutations of the indices
